@@ -58,7 +58,7 @@ Plans1C == {pl \in Plans1 : pl.cancel}
 \* quick tier: every fault without user cancel on the schedule-end shape, the clean run on the other shape
 QuickPlans == {pl \in Plans1NC : pl.pools[1].shape = "sched-end" \/ pl.pools[1].fault \in {"none", "agg-drop-on-cancel", "prov-at-the-very-end"}}
 \* thorough tier: every plan without cancel + user cancel at any step for these faults
-CancelFaults == {"none", "prov-mid-run", "prov-at-the-very-end", "agg-drop-on-cancel", "newgun-later", "panic-later", "sched-shared"}
+CancelFaults == {"none", "prov-mid-run", "prov-at-the-very-end", "agg-drop-on-cancel", "sched-shared"}
 ThoroughPlans == Plans1NC \cup {pl \in Plans1C : pl.pools[1].fault \in CancelFaults /\ pl.pools[1].shape = "out-of-ammo"}
 \* liveness is checked on a representative subset (TLC's liveness checking is sequential)
 LiveFaults == {"none", "prov-at-the-very-end", "agg-drop-on-cancel", "sched-shared", "newgun-later", "bind-first",
@@ -73,9 +73,10 @@ LivePlansC == {pl \in Plans1 : pl.pools[1].fault \in {"none", "agg-drop-on-cance
 PromptPlans == PlansSC
 PromptPlansQ == {pl \in PlansSC : pl.id = 3001}
 Plans2NC == {pl \in Plans2 : ~pl.cancel}
-\* two pools, exhaustive: a handful of faults in either pool, and both pools failing
-Plans2Q == {pl \in Plans2NC : \E p \in 1..2 : pl.pools[p].fault \in {"prov-mid-run", "agg-drop-on-cancel", "sched-shared", "panic-first"}}
-           \cup {pl \in Plans2b : pl.pools[1].fault \in {"prov-mid-run", "sched-shared"}}
+\* two pools, exhaustive (each two-pool plan has some 10^5..10^6 states): the late aggregator error in the first pool,
+\* the shared-schedule failure in the second, and both at once
+Plans2Q == {pl \in Plans2NC : pl.pools[1].fault = "agg-drop-on-cancel" \/ pl.pools[2].fault = "sched-shared"}
+           \cup {pl \in Plans2b : pl.pools[1].fault = "sched-shared"}
 AllPlans == PlansSC \cup Plans1 \cup Plans2 \cup Plans2b
 OnePlan == {pl \in Plans1 : pl.id = 1}
 \* negative controls need only the plans that trigger the defect
